@@ -69,8 +69,15 @@ def main():
             try:
                 seq = ISD.generate_isd_sequence(d, is_multithreaded=False)
                 if [x for x, _ in seq] != sig: s_fail.append((k, "sequence", "times differ from significant_times"))
+                from ttconv.isd import ISD as _I
                 for x, i in seq:
                     if L.isd_lit(i) != snap(x, True): s_fail.append((k, "sequence", f"entry at {x} is not the snapshot at {x}")); break
+                    try:
+                        plain = _I.from_model(d, x)
+                    except Exception:
+                        continue
+                    if isdcore.render_lit(i) != isdcore.render_lit(plain):
+                        s_fail.append((k, "sequence", f"entry at {x} does not render like the snapshot ISD.from_model(doc, {x})")); break
             except Exception as e:
                 if not any(snap(x, True) is None for x in sig): s_fail.append((k, "sequence", f"raised {type(e).__name__}"))
     files = isdcore.write_shards("Cases_C02_", HEADER, blocks)
